@@ -192,7 +192,7 @@ Qed.
 
 Lemma co_destroy_frame : forall k s r s', Inv s -> co_destroy k s = (r, s') -> frame (eq k) s s'.
 Proof.
-  intros k s r s' I H. unfold co_destroy in H. rewrite destroy_order_fixed, andb_false_r in H.
+  intros k s r s' I H. unfold co_destroy, co_destroy_with in H. rewrite destroy_order_fixed, andb_false_r in H.
   destruct (mco_destroy k s) as [e s2] eqn:D. pose proof (mco_destroy_frame _ _ _ _ I D) as F1.
   destruct (is_success e && gcon s); [|inversion H; subst; exact F1].
   destruct (get k (cos s)) as [c|]; [destruct (co_reg c)|]; inversion H; subst; exact F1.
